@@ -120,6 +120,41 @@ def run(ck: Check) -> int:
             sr.distinct += 1
             if len(sr.samples) < 3:
                 sr.samples.append({'api': mod.__name__, 'pattern': p, 'flags': hex(fl)})
+        # Windows rules and the string-only helpers: is_magic / escape / translate / match twins under FORCEWIN, drive and UNC
+        # prefixes written with `/` and with escaped backslashes (added after seeded change C18g: is_magic's membership loops
+        # became set.isdisjoint, which iterates a bytes drive as ints and never finds the bytes member b'\\' of the drive set)
+        wpats = ['c:\\\\file', 'c:/file', '\\\\\\\\server\\\\share\\\\x', '//server/share/x', '\\\\\\\\?\\\\c:\\\\x', '//?/c:/x', 'c:\\\\*', 'c:/[a]',
+                 'a\\\\b', 'a/b', 'plain', 'a*', '~x', '{a,b}', 'a|b', '!a', '-a', '@(a)', '//?/UNC/h/s/x', '\\\\\\\\?\\\\UNC\\\\h\\\\s', 'c:', 'c:x', '\\\\', '/']
+        wnames = ['c:\\file', 'c:/file', 'C:/FILE', '//server/share/x', '\\\\server\\share\\x', 'a\\b', 'a/b', 'plain', 'ab', 'a']
+        for wp in wpats:
+            for sub in range(16):
+                for mod in (F, G):
+                    fl = mod.FORCEWIN | (mod.EXTMATCH if sub & 1 else 0) | (mod.BRACE if sub & 2 else 0) | (mod.NEGATE if sub & 4 else 0) | (mod.SPLIT if sub & 8 else 0)
+                    if mod is G and sub & 4:
+                        fl |= G.GLOBTILDE
+                    sr.evaluations += 1
+                    try:
+                        with common.time_limit(5):
+                            for what, fs, fb in (('is_magic', lambda: mod.is_magic(wp, flags=fl), lambda: mod.is_magic(e(wp), flags=fl)),
+                                                 ('translate', lambda: [[x.replace('\u0000-\U0010ffff', '\x00-\xff').encode('latin-1') for x in part] for part in mod.translate(wp, flags=fl)],
+                                                  lambda: [list(part) for part in mod.translate(e(wp), flags=fl)]),
+                                                 ('match', lambda: [bool(mod.compile(wp, flags=fl).match(x)) for x in wnames],
+                                                  lambda: [bool(mod.compile(e(wp), flags=fl).match(e(x))) for x in wnames])):
+                                try:
+                                    rs = fs()
+                                except Exception as ex:  # noqa: BLE001
+                                    rs = type(ex).__name__
+                                try:
+                                    rb = fb()
+                                except Exception as ex:  # noqa: BLE001
+                                    rb = type(ex).__name__
+                                if rs != rb:
+                                    ck.report(Failing(f'{what}(bytes) differs from {what}(str) under Windows rules', {'api': f'{mod.__name__}.{what}', 'pattern': wp, 'flags': fl},
+                                                      repr(rs)[:200], repr(rb)[:200]), None)
+                    except common.CallTimeout:
+                        continue
+            if e(G.escape(wp, unix=False)) != G.escape(e(wp), unix=False):
+                ck.report(Failing('glob.escape(bytes, unix=False) is not the encoded escape(str)', {'api': 'glob.escape', 'pattern': wp}, G.escape(wp, unix=False), G.escape(e(wp), unix=False)), None)
         # single bytes 0x80-0xff against bracket / POSIX forms
         forms = ['[[:alpha:]]', '[![:alpha:]]', '[[:ascii:]]', '[![:ascii:]]', '[[:print:]]', '[[:word:]]', '[a-\xff]', '[!a-z]', '?', '*', '[\x80-\x90]', '[[:punct:][:digit:]]',
                  # classes emptied by the reversed-range check become "match nothing" / "match any code unit" (ASCII_RANGE vs
